@@ -20,5 +20,8 @@ Definition f_cal (ts : Z) : list Z :=
   [year_of ts; month_of ts; dom_of ts; quarter_of ts; week_of ts; weekday_of_days (day_of ts);
    iso_year_of_days (day_of ts); day_of ts].
 Definition f_sub_offset := sub_offset.
+Definition f_sched_run := @sched_run FNumI f_paper_step.
+Definition f_stack_runs (n : nat) (stack : list (algo FNumI)) :=
+  @stack_runs FNumI f_paper_step n (dummy_root 1 stack None).
 
-Extraction "model.ml" f_build f_apply_op f_comm f_paper_step f_backtest f_cal f_sub_offset empty_temp.
+Extraction "model.ml" f_build f_apply_op f_comm f_paper_step f_backtest f_cal f_sub_offset f_sched_run f_stack_runs empty_temp.
